@@ -45,6 +45,7 @@ def gen_case(rng, i):
     c["freq"], c["start"] = 2, 3
     c["override"], c["ignored"] = 0, []
     c["eps"] = 1e-3
+    c["max_dim"] = 1 if i % 12 == 7 else rng.choice([2, 3, 1024])
     shapes = [rng.choice([[3, 4], [4, 4], [2, 3, 2], [5]]) for _ in range(rng.randint(2, 3))]
     nsteps = 7
     flip = rng.randrange(len(shapes))
@@ -68,10 +69,19 @@ def worker(args):
     comp = copy.deepcopy(case)
     comp["pt2"] = {"backend": mode[0], "dynamic": mode[1]}
     try:
-        recs_c, _, params_c = optrun.run_case(comp)
+        recs_c, opt_c, params_c = optrun.run_case(comp)
     except Exception as e:  # noqa
         return {"error": f"compiled run failed: {type(e).__name__}: {e}"[:400]}
     graphs = int(counters["stats"].get("unique_graphs", 0))
+    # number of blocks (mutated views) sharing one parameter's storage
+    max_blocks = 0
+    for gi in range(len(params_c)):
+        _, infos = optrun.group_handles(opt_c, gi)
+        per = {}
+        for info in infos:
+            per[id(info.param)] = per.get(id(info.param), 0) + 1
+        max_blocks = max([max_blocks] + list(per.values()))
+    step_errors = [(si, r["error"]) for si, row in enumerate(recs_c) for r in row if r["error"]]
     recs_e, _, params_e = optrun.run_case(case)
     rows, biteq = [], True
     first_diff = None
@@ -82,7 +92,8 @@ def worker(args):
                 first_diff = (si, gi)
             biteq = biteq and same
             rows.append({"step": si, "group": gi, "term": optrun.cstep(a), "error": a["error"], "ncalls": len(a["calls"])})
-    return {"rows": rows, "graphs": graphs, "biteq": biteq, "first_diff": first_diff}
+    return {"rows": rows, "graphs": graphs, "biteq": biteq, "first_diff": first_diff, "max_blocks": max_blocks,
+            "step_errors": step_errors[:2]}
 
 
 def run(ck: Check) -> None:
@@ -126,6 +137,14 @@ def run(ck: Check) -> None:
             continue
         programs += 1
         modes_hist[key] = modes_hist.get(key, 0) + 1
+        if res["step_errors"]:
+            si, err = res["step_errors"][0]
+            sig = None
+            if mode[0] == "aot_eager" and mode[1] is not False and res["max_blocks"] >= 2 and "BackendCompilerFailed" in err:
+                sig = "C18:aot-dynamic-aliased-blocks"
+            ck.report(sig, f"compiled step {si} raised under {key} (max blocks per parameter {res['max_blocks']}): {err[:160]}",
+                      {"kind": "compiled-step-raises", "case": case, "mode": list(mode), "step": si, "error": err, "max_blocks_per_param": res["max_blocks"]})
+            continue
         if res["graphs"] == 0:
             ck.report(None, f"Dynamo compiled no graph for {key}: the run fell back to eager and validates nothing",
                       {"kind": "no-graph", "case": case, "mode": list(mode)}, no_failing_input=True)
